@@ -384,12 +384,19 @@ func (o cliObs) want() string {
 	if o.Outfile != nil {
 		of = textWire(*o.Outfile)
 	}
-	return fmt.Sprintf("exit=%d stdout=%s outfile=%s stderr=%s msg=%s", o.Exit, textWire(o.Stdout), of, class, textWire(msg))
+	// the text of an error message is not compared (it is no part of the property and depends on Go's map iteration
+	// order, e.g. which of two absent elements a multiset hunk reports): only whether there is one
+	ms := "none"
+	if msg != "" {
+		ms = "some"
+	}
+	return fmt.Sprintf("exit=%d stdout=%s outfile=%s stderr=%s msg=%s", o.Exit, textWire(o.Stdout), of, class, ms)
 }
 
 func (o cliObs) same(p cliObs) string {
-	_, m1 := o.classify()
-	_, m2 := p.classify()
+	c1, m1 := o.classify()
+	c2, m2 := p.classify()
+	m1, m2 = c1+fmt.Sprint(m1 != ""), c2+fmt.Sprint(m2 != "")
 	switch {
 	case o.Exit != p.Exit:
 		return fmt.Sprintf("exit status %d vs %d", o.Exit, p.Exit)
